@@ -16,6 +16,7 @@ import (
 	"go/token"
 	"go/types"
 	"math"
+	"os"
 	"sort"
 	"strings"
 
@@ -547,6 +548,9 @@ type Engine struct {
 	TraceConv bool
 	// Entered, when non-nil, collects the functions whose bodies were interpreted.
 	Entered map[*ssa.Function]bool
+	// TailHeaders: loop headers of the root function at which a second entry ends the path at once (Outcome.Cut with the
+	// phi values of that entry): the loop re-runs the function's body on new arguments, which the client treats as a call.
+	TailHeaders map[*ssa.BasicBlock]bool
 	// Stop, when set, is asked at every block entry whether the path is still of interest.
 	Stop func(st *State) bool
 	// Unmodelled counts instructions whose result was left unknown, by kind (evidence).
@@ -638,7 +642,7 @@ func (e *Engine) block(fr *frame, b, prev *ssa.BasicBlock, st *State, outs *[]Ou
 		}
 	}
 	fr.visits[b]++
-	if fr.visits[b] > e.MaxVisits+1 || (fr.visits[b] > e.MaxVisits && e.isLoopHeader(b)) {
+	if fr.visits[b] > e.MaxVisits+1 || (fr.visits[b] > e.MaxVisits && e.isLoopHeader(b)) || (fr.depth == 0 && fr.visits[b] > 1 && e.TailHeaders[b]) {
 		e.paths++
 		*outs = append(*outs, Outcome{St: st, Cut: true, CutBlock: b, CutPhis: phiVals})
 		return
@@ -1067,6 +1071,14 @@ func (e *Engine) builtin(st *State, name string, args []AV, c *ssa.CallCommon) A
 					st.store(avPtr{dst.o, fmt.Sprintf("%s[%d]", dst.path, i)}, e.elemAt(st, args[1], i))
 				}
 				return avConst{constant.MakeInt64(int64(n))}
+			}
+			if os.Getenv("JMESCHECK_DEBUG_COPY") != "" {
+				fmt.Fprintf(os.Stderr, "copy: dst.n=%d src=%s lenOf=%v\n", dst.n, avKey(args[1]), func() string {
+					if sy, ok := args[1].(avSym); ok {
+						return avKey(e.lenOf(st, sy))
+					}
+					return "-"
+				}())
 			}
 			// an unknown number of elements was overwritten
 			for k := range st.heap[dst.o] {
